@@ -1,4 +1,5 @@
 import ast
+import copy
 from contextlib import suppress
 from dataclasses import dataclass, field
 from typing import ClassVar, NoReturn
@@ -85,8 +86,13 @@ class OverloadedFunctionDef(CompiledCallableDef, CallableDef):
             defn = ctx.globals[def_id]
             assert isinstance(defn, CallableDef)
             available_sigs.append(defn.ty)
+            # Checking a call annotates and rewrites the argument nodes (and `node`) in
+            # place, also when it fails half-way. Try each variant on its own copy so
+            # that a failed attempt cannot influence the following ones.
             with suppress(GuppyError):
-                return defn.check_call(args, ty, node, ctx)
+                return defn.check_call(
+                    copy.deepcopy(args), ty, copy.deepcopy(node), ctx
+                )
         return self._call_error(args, node, ctx, available_sigs, ty)
 
     def synthesize_call(
@@ -97,8 +103,11 @@ class OverloadedFunctionDef(CompiledCallableDef, CallableDef):
             defn = ctx.globals[def_id]
             assert isinstance(defn, CallableDef)
             available_sigs.append(defn.ty)
+            # See `check_call`: every variant is tried on its own copy of the arguments
             with suppress(GuppyError):
-                return defn.synthesize_call(args, node, ctx)
+                return defn.synthesize_call(
+                    copy.deepcopy(args), copy.deepcopy(node), ctx
+                )
         return self._call_error(args, node, ctx, available_sigs)
 
     def _call_error(
